@@ -87,7 +87,8 @@ CLAIMED = {
          "checkmate and a score <= -32000 means the position is lost, in the sense of spec/Mate.v (unbounded forced mate over the bare rules); the bounded oracle the check "
          "evaluates implies that notion (C12_oracle_sound) and finds every forced mate for some bound (C12_oracle_complete); props/C12rules.v: the model's Won/Lost are "
          "EQUIVALENT to Won/Lost over spec/Rules.v for every wf_rules board, without any counter guard (C12_model_mates_are_rules_mates), hence C12_mate_scores_sound_rules: "
-         "a mate score means the announced move is a legal move of the rules of chess after which the opponent is lost under the rules. This is the soundness half of 'keeps a forced mate' with the cache on; ply-relative scores blur the DISTANCE "
+         "a mate score means the announced move is a legal move of the rules of chess after which the opponent is lost under the rules; props/EndToEndMate.v: the same from "
+         "session text (`position startpos|fen ... moves ...` then `go`), composed with the end-to-end theorem of C08. This is the soundness half of 'keeps a forced mate' with the cache on; ply-relative scores blur the DISTANCE "
          "of a mate (the engine does prefer a mate in three to a mate in two now and then: witness in DESIGN.md), never its existence. Cache neutralised: ALL THREE clauses "
          "as theorems (props/C12off.v, props/C12offchess.v) from C11, with the value characterisation. (3) COMPLETENESS, cache on (props/C12seen.v): C12_quiet_mate_in_two_seen / _search — under key_inj (the key determines the position including clock and "
          "repetition record) and seldepth < 254, a mate in two with a QUIET key move is always seen (score >= 32000, the chosen move forces mate) from any mate-sound, "
